@@ -24,6 +24,7 @@ WIDEN_AFTER = 3
 
 class Violation:
     def __init__(self, rule, status, root, chain, prim, what, span, config):
+        self.unwinding = False
         self.rule = rule
         self.status = status
         self.root = root
@@ -40,7 +41,7 @@ class Violation:
     def to_json(self):
         return {'rule': self.rule, 'status': self.status, 'root': self.root, 'chain': list(self.chain),
                 'primitive': self.prim, 'what': self.what, 'span': self.span, 'config': self.config,
-                'key': self.key}
+                'key': self.key, 'unwinding': self.unwinding}
 
     def __repr__(self):
         return '[%s/%s] %s :: %s @ %s (%s) — %s' % (self.rule, self.status, self.root,
@@ -83,6 +84,7 @@ class Interp:
         self.unmodelled = collections.Counter()
         self.contract = None
         self.sites_seen = collections.defaultdict(set)
+        self.cover = set()
 
     # ------------------------------------------------------------------ crate structure
     def _find_containers(self):
@@ -116,6 +118,8 @@ class Interp:
     def oblig(self, rule, ok, prim, what, status='refuted', sample=None):
         self.n_oblig[rule] += 1
         self.sites_seen[rule].add((self.root, self.site(), prim))
+        if self.chain:
+            self.cover.add((self.chain[-1], prim))
         if ok:
             self.n_ok[rule] += 1
             if sample is not None and len(self.samples[rule]) < 6:
@@ -127,6 +131,7 @@ class Interp:
 
     def violate(self, rule, status, prim, what):
         v = Violation(rule, status, self.root, self.site(), prim, what, self.cur_span, self.config)
+        v.unwinding = bool(getattr(self, 'in_unwind', False))
         if v.key not in self.vkeys:
             self.vkeys.add(v.key)
             self.violations.append(v)
